@@ -6,6 +6,7 @@
 package main
 
 import (
+	"os/signal"
 	"log/slog"
 	"bytes"
 	"encoding/json"
@@ -239,6 +240,8 @@ type vHarness struct {
 	dir     string
 	sinkTCP net.Listener
 	sinkUDP net.PacketConn
+	serverCfg string   // configuration file name given to RunOutlineServer
+	nserver   int
 	lastNat vNatProbe // the latest UDP probe (client address, instant it was sent)
 	natLife bool      // mode "natlife": follow every authenticated UDP probe until its association is removed
 }
@@ -567,8 +570,13 @@ func vSetLogging(scenario int) {
 
 func (h *vHarness) newServer(m *vMetrics, replay int) *OutlineServer {
 	empty := vCfg{Kind: "ok"}
-	f := filepath.Join(h.dir, "cfg-empty.yml")
+	h.nserver++
+	f := filepath.Join(h.dir, fmt.Sprintf("server-%d.yml", h.nserver))
+	h.serverCfg = f // the file the server's own SIGHUP handler reloads
 	os.WriteFile(f, []byte("services: []\n"), 0o600)
+	// every RunOutlineServer subscribes its server to SIGHUP for the life of the process: only the server of the current
+	// scenario may react to the signals the harness sends
+	signal.Reset(syscall.SIGHUP)
 	server, err := RunOutlineServer(f, vNatTimeout, newPrometheusServerMetrics(), m, replay)
 	h.emit(map[string]any{"ev": "Load", "cfg": vCfgJSON(empty), "frn": vFrn(nil), "ok": err == nil, "err": fmt.Sprint(err)})
 	if err != nil {
